@@ -13,6 +13,8 @@ pub struct Store {
     /// PUTs of keys containing .0 fail for attempts listed in .1 (1-based), or always if .2
     pub put_faults: Vec<(String, Vec<u32>, bool)>,
     pub get_fail_once: Vec<String>,
+    /// every GET of keys containing one of these fails
+    pub get_fail_always: Vec<String>,
     pub put_attempts: BTreeMap<String, u32>,
     pub get_attempts: BTreeMap<String, u32>,
     pub puts_ok: u64,
@@ -186,7 +188,7 @@ fn serve(mut c: TcpStream, st: Arc<Mutex<Store>>) {
                         *e += 1;
                         *e
                     };
-                    let fail = n == 1 && g.get_fail_once.iter().any(|pat| key.contains(pat.as_str()));
+                    let fail = (n == 1 && g.get_fail_once.iter().any(|pat| key.contains(pat.as_str()))) || g.get_fail_always.iter().any(|pat| key.contains(pat.as_str()));
                     if fail {
                         g.gets_failed += 1;
                         ("500 Internal Server Error", String::new(), b"<?xml version=\"1.0\" encoding=\"UTF-8\"?><Error><Code>InternalError</Code><Message>injected</Message></Error>".to_vec())
